@@ -225,10 +225,22 @@ theorem ofMk_type : ofMk .type = .type := rfl
 
 /-- a name the parser cannot take for a literal (F16/F16b: pySMT drops the bars of `|12|`): non-empty, and it starts
 neither like a number nor like `#b…`/`#x…` -/
-def pnameOK (n : String) : Bool :=
+def pnameOK0 (n : String) : Bool :=
   match n.toList with
   | [] => false
   | c :: _ => !isDigit c && c != '#'
+
+/-- … and it is not a parenthesis: pySMT's tokenizer hands on the contents of `|(|` and `|)|` as parenthesis tokens
+(known finding P03: such a symbol cannot be declared or read back) -/
+def pnameOK (n : String) : Bool := pnameOK0 n && n != "(" && n != ")"
+
+theorem pnameOK_base {n : String} (h : pnameOK n = true) : pnameOK0 n = true := by
+  unfold pnameOK at h
+  simp only [Bool.and_eq_true] at h
+  exact h.1.1
+
+theorem pnameOK_of_base {n : String} (h : pnameOK0 n = true) (h1 : n ≠ "(") (h2 : n ≠ ")") : pnameOK n = true := by
+  simp [pnameOK, h, h1, h2]
 
 /-- the formula manager knows only symbols of the name ↦ symbol assignment `ρ` (so that `Symbol(name, type)` never
 clashes: one name, one sort — what `FormulaManager` guarantees for every formula it holds) -/
